@@ -84,7 +84,8 @@ class OcpSolution:
         """
         time, res = self.stage.sample(expr, grid, **kwargs)
         res = self.sol.value(res)
-        return self.sol.value(time), DM2numpy(res, MX(expr).shape, time.numel())
+        # one entry per sample, also on a grid with a single point
+        return np.atleast_1d(self.sol.value(time)), DM2numpy(res, MX(expr).shape, time.numel())
 
     def sampler(self, *args):
         """Returns a function that samples given expressions
